@@ -4,6 +4,7 @@ package props_race
 
 import (
 	"bytes"
+	"encoding/binary"
 	"fmt"
 	"reflect"
 	"runtime"
@@ -341,6 +342,7 @@ func c20CheckPools(c C20Pools) *pbt.Violation {
 		{Name: "Owner", Type: reflect.TypeOf(int32(0)), Tag: `nbt:"owner"`},
 		{Name: "Data", Type: reflect.TypeOf([]byte(nil)), Tag: `nbt:"data"`},
 		{Name: "Tags", Type: reflect.TypeOf([]string(nil)), Tag: `nbt:"tags"`},
+		{Name: "Mark", Type: reflect.TypeOf(int64(0)), Tag: `nbt:"casefoldedmarkername"`},
 	})
 	start := make(chan struct{})
 	for g := 0; g < c.Goroutines; g++ {
@@ -398,6 +400,33 @@ func c20CheckPools(c C20Pools) *pbt.Violation {
 				}
 				if !reflect.DeepEqual(back.Elem().Interface(), v.Interface()) {
 					errs <- fmt.Sprintf("goroutine %d iteration %d: NBT value decoded differently from what was encoded", g, it)
+					return
+				}
+				// --- independent decoders filling the SAME struct type from documents whose key spelling
+				// nobody has used yet (upper/lower case chosen by the serial): whatever the decoder makes
+				// of such keys, a field it sets holds this goroutine's value
+				mark := int64(g)<<40 | int64(it)<<20 | serial&0xfffff
+				name := []byte("casefoldedmarkername")
+				for b := range name {
+					if serial>>uint(b)&1 == 1 {
+						name[b] -= 'a' - 'A'
+					}
+				}
+				doc := []byte{10, 0, 0, 4, 0, byte(len(name))}
+				doc = append(doc, name...)
+				doc = binary.BigEndian.AppendUint64(doc, uint64(mark))
+				doc = append(doc, 3, 0, 5, 'O', 'w', 'n', 'e', 'r', 0, 0, 0, byte(g), 0)
+				sv := reflect.New(shared)
+				if err := nbt.Unmarshal(doc, sv.Interface()); err != nil {
+					errs <- fmt.Sprintf("goroutine %d: nbt.Unmarshal into the shared type: %v", g, err)
+					return
+				}
+				if m := sv.Elem().Field(3).Int(); m != 0 && m != mark {
+					errs <- fmt.Sprintf("goroutine %d iteration %d: shared-type decode gave Mark=%#x, this goroutine's document says %#x", g, it, m, mark)
+					return
+				}
+				if o := sv.Elem().Field(0).Int(); o != 0 && o != int64(g) {
+					errs <- fmt.Sprintf("goroutine %d iteration %d: shared-type decode gave Owner=%d", g, it, o)
 					return
 				}
 				for _, d := range kept {
